@@ -106,6 +106,9 @@ def run(ctx):
     for _ in range(n):
         d = rng.choice([3, 3, 4] if ctx.quick else [3, 4, 4, 5])
         bases.append(([rng.choice((1, -1, 0)) for _ in range(d)], random_custom_basis(rng, d)))
+    # labels spelled with hex letters (a..f; `e` is also the prefix of every blade name)
+    for d, st in ((3, 13), (3, 12), (4, 12), (2, 14)):
+        bases.append(([rng.choice((1, -1, 0)) for _ in range(d)], random_custom_basis(rng, d, st)))
     # above six dimensions (sign table filled on demand): custom bases with 128 / 256 blade names
     for d in ([7] if ctx.quick else [7, 7, 8]):
         sig = [rng.choice((1, -1, 0)) for _ in range(d)]
